@@ -10,7 +10,7 @@ from concurrent.futures import ThreadPoolExecutor, as_completed
 VERIF = os.path.dirname(os.path.dirname(os.path.abspath(__file__)))
 REPO = os.environ.get("VERIF_REPO", "/repo")
 GUARD = "CELLO_VERIF"
-BASE_CFLAGS = ["-I", os.path.join(REPO, "include"), "-I", os.path.join(VERIF, "lib"),
+BASE_CFLAGS = ["-I", os.path.join(REPO, "include"), "-I", os.path.join(REPO, "src"), "-I", os.path.join(VERIF, "lib"),
                "-std=gnu99", "-DCELLO_NSTRACE", "-D" + GUARD]
 CONFIGS = {
     "default": [],
@@ -36,9 +36,9 @@ class Ob:
 
     def __init__(self, name, harness, defs=(), config="default", replace=(), throw="stub",
                  entry="harness", unwind=24, unwindset=(), checks=(), extra=(),
-                 tiers=("quick", "thorough"), timeout=900, mem_gb=12, known=None,
+                 tiers=("quick", "thorough"), timeout=900, mem_gb=6, known=None,
                  desc="", link="all", libdefs=(), native=True, fp_restrict=(), backend=None,
-                 nowitness=False, srcs_extra=()):
+                 nowitness=False, srcs_extra=(), filedefs=None):
         self.name = name
         self.harness = harness          # path relative to /verif/harness
         self.defs = list(defs)          # -D for the harness TU
@@ -62,6 +62,7 @@ class Ob:
         self.backend = backend          # None (minisat) | 'cadical' | 'kissat' | 'cvc5' | 'z3'
         self.nowitness = nowitness
         self.srcs_extra = list(srcs_extra)  # extra /verif/lib/*.c to link
+        self.filedefs = dict(filedefs or {})  # {'String.c': ['-Drealloc=vcap_realloc', ...]} extra flags for single library TUs
 
 
 class Scratch:
@@ -117,16 +118,18 @@ class Builder:
         self.scratch = scratch
         self.cache = {}
 
-    def lib(self, config, throw, libdefs=()):
-        key = (config, throw, tuple(libdefs))
+    def lib(self, config, throw, libdefs=(), filedefs=None):
+        filedefs = filedefs or {}
+        fkey = tuple(sorted((k, tuple(v)) for k, v in filedefs.items()))
+        key = (config, throw, tuple(libdefs), fkey)
         if key in self.cache:
             return self.cache[key]
-        d = os.path.join(self.scratch.dir, "lib-%s-%s-%s" % (config, throw, hashlib.md5(repr(libdefs).encode()).hexdigest()[:6]))
+        d = os.path.join(self.scratch.dir, "lib-%s-%s-%s" % (config, throw, hashlib.md5(repr((libdefs, fkey)).encode()).hexdigest()[:6]))
         os.makedirs(d, exist_ok=True)
         objs = {}
         jobs = []
         for f in src_files():
-            flags = BASE_CFLAGS + CONFIGS[config] + list(libdefs)
+            flags = BASE_CFLAGS + CONFIGS[config] + list(libdefs) + list(filedefs.get(f, []))
             if throw == "stub" and f == "Exception.c":
                 flags = flags + ["-Dexception_throw=cello_real_exception_throw"]
             if throw == "real" and f != "Exception.c":
